@@ -415,7 +415,15 @@ pub fn finish(args: &Args, meta: Meta, ev: Evidence, started: Instant) -> i32 {
     cov.insert("evaluations".into(), json!(ev.evaluations));
     cov.insert("distinct_nontrivial".into(), json!(distinct));
     cov.insert("rule".into(), json!(meta.rule));
-    cov.insert("samples".into(), Value::Array(ev.samples.clone()));
+    let mut samples = ev.samples.clone();
+    if samples.is_empty() {
+        // every check records concrete cases; if none of the sampled slots was hit in this run
+        // fall back to the observed class keys themselves (each is a case that was executed)
+        for (k, v) in ev.classes.iter().take(4) {
+            samples.push(json!({"observed_case_class": k, "times": v}));
+        }
+    }
+    cov.insert("samples".into(), Value::Array(samples));
     if let Some(x) = meta.exhaustive {
         cov.insert("exhaustive".into(), json!(x));
     }
